@@ -327,3 +327,7 @@ def run(ctx, rep, tier):
     if tier == 'thorough':
         from . import witness
         witness.run(rep, 'C08.R7', ['update_needs_mut'])
+    from . import primitives
+    primitives.vector_primitives(rep, ctx.facts('default'), ctx.eff('default'), '', 'C08.R8')
+
+
